@@ -1887,6 +1887,8 @@ Box<ITV>::drop_some_non_integer_points(Complexity_Class) {
   for (dimension_type k = seq.size(); k-- > 0; ) {
     seq[k].drop_some_non_integer_points();
   }
+  // Tightening an interval may make it (and hence the box) empty.
+  reset_empty_up_to_date();
 
   PPL_ASSERT(OK());
 }
@@ -1914,6 +1916,8 @@ Box<ITV>::drop_some_non_integer_points(const Variables_Set& vars,
          v_end = vars.end(); v_i != v_end; ++v_i) {
     seq[*v_i].drop_some_non_integer_points();
   }
+  // Tightening an interval may make it (and hence the box) empty.
+  reset_empty_up_to_date();
 
   PPL_ASSERT(OK());
 }
